@@ -20,6 +20,14 @@ import es_common as E
 from runner import CorrResult  # noqa: F401
 
 NAMES = ["a", "ab", "b", "n", "n1", "o", "h", "raw", "t", "k"]
+# name collisions: 3-4 names reused at every level (the same container name at several places, the same leaf
+# names under different parents, "a" / "ab" named like a prefix of one another)
+COLLIDING = [["a", "b", "c"], ["n", "o", "a", "ab"], ["x", "y", "x1"], ["comments", "attachment", "author"]]
+_pool = [NAMES]
+
+
+def pick_name(r):
+    return r.choice(_pool[0])
 LEAF_DEFS = [
     {"type": "text"}, {"type": "keyword"}, {"type": "integer"}, {"type": "date"}, {"type": "boolean"},
     {"type": "string"}, {"type": "string", "index": "not_analyzed"}, {"type": "string", "index": "analyzed"},
@@ -39,8 +47,8 @@ def gen_field(r, depth, odd):
         if r.random() < 0.25:
             d["fields"] = {}
             for _ in range(r.randrange(0 if odd else 1, 3)):
-                d["fields"][r.choice(NAMES)] = copy.deepcopy(r.choice(SUB_DEFS if odd or r.random() < 0.3
-                                                                       else LEAF_DEFS))
+                d["fields"][pick_name(r)] = copy.deepcopy(r.choice(SUB_DEFS if odd or r.random() < 0.3
+                                                                    else LEAF_DEFS))
         return d
     kind = r.choice(["object", "implicit", "nested", "nested", "object"])
     d = {}
@@ -52,7 +60,7 @@ def gen_field(r, depth, odd):
         d["properties"] = props
     if odd and r.random() < 0.08:
         # a container that also has multi-fields (the walk re-binds fname / fdef)
-        d["fields"] = {r.choice(NAMES): copy.deepcopy(r.choice(LEAF_DEFS)) for _ in range(r.randrange(1, 3))}
+        d["fields"] = {pick_name(r): copy.deepcopy(r.choice(LEAF_DEFS)) for _ in range(r.randrange(1, 3))}
         if r.random() < 0.4:
             k = r.choice(list(d["fields"]))
             d["fields"][k]["properties"] = gen_props(r, 1, r.randrange(1, 3), False)
@@ -62,15 +70,22 @@ def gen_field(r, depth, odd):
 def gen_props(r, depth, n, odd):
     props = {}
     for _ in range(n):
-        name = r.choice(NAMES)
+        name = pick_name(r)
         if odd and r.random() < 0.04:
             name = r.choice(["a.b", "n.o"])
         props[name] = gen_field(r, depth, odd)
     return props
 
 
-def gen_schema(r, odd=False):
-    depth = r.randrange(1, 5)
+def gen_schema(r, odd=False, collide=False):
+    _pool[0] = r.choice(COLLIDING) if collide else NAMES
+    try:
+        return _gen_schema(r, odd, 4 if collide and r.random() < 0.6 else r.randrange(1, 5))
+    finally:
+        _pool[0] = NAMES
+
+
+def _gen_schema(r, odd, depth):
     schema = {}
     if r.random() < 0.3:
         schema["settings"] = r.choice([{}, {"query": {}}, {"query": {"default_field": r.choice(["text", "a", "n.o"])}},
@@ -142,6 +157,22 @@ def fixed_schemas():
         {"mappings": {"d1": {"properties": {"n1": {"type": "nested", "properties": {
             "n2": {"type": "nested", "properties": {"h": TX}}}}}},
                       "d2": {"properties": {"n1": {"type": "nested", "properties": {"n2": {"type": "nested"}}}}}}},
+        # name collisions: a nested field X walked first, a later sibling object / nested field with its own X
+        cur({"comments": {"type": "nested", "properties": {"author": KW}},
+             "attachment": {"type": "object", "properties": {
+                 "comments": {"type": "nested", "properties": {"author": KW, "text": TX}}}}}),
+        cur({"attachment": {"properties": {"comments": {"type": "nested", "properties": {"author": KW}}}},
+             "comments": {"type": "nested", "properties": {"author": TX}}}),
+        cur({"x": {"type": "nested", "properties": {"a": KW, "y": {"type": "nested", "properties": {
+            "x": {"type": "nested", "properties": {"a": TX}}, "a": KW}}}},
+             "y": {"type": "nested", "properties": {"x": {"type": "object", "properties": {
+                 "x": {"type": "nested", "properties": {"a": KW}}, "a": TX}}}}}),
+        {"mappings": {"d": {"properties": {
+            "a": {"type": "nested", "properties": {"b": KW}},
+            "ab": {"properties": {"a": {"type": "nested", "properties": {"b": TX}},
+                                  "b": {"properties": {"a": {"type": "nested", "properties": {"b": KW}}}}}},
+            "b": {"type": "nested", "properties": {"a": {"type": "object", "properties": {
+                "a": {"type": "nested", "properties": {"b": KW}}, "b": TX}}}}}}}},
         {"settings": {"query": {"default_field": "a"}}, "mappings": {"properties": {"a": KW}}},
         {"settings": {"query": {}}, "mappings": {}},
         {},
@@ -478,7 +509,8 @@ def correspond(model_ok, res):
     schemas = [(s, "fixed") for s in fixed_schemas()]
     for i in range(n):
         odd = r.random() < 0.3
-        schemas.append((gen_schema(r, odd), "odd" if odd else "plain"))
+        collide = r.random() < 0.35
+        schemas.append((gen_schema(r, odd, collide), ("odd" if odd else "plain") + ("-collide" if collide else "")))
 
     cases_a, payload_a, cases_b, payload_b = [], [], [], []
     cases_c, payload_c = [], []
@@ -583,7 +615,8 @@ def correspond(model_ok, res):
     res.nontrivial = len(seen)
     res.rule = ("index descriptions: fixed corpus + random (depth <= 4; text / keyword / numeric / date / legacy "
                 "string with index variants; objects with and without explicit type; nested; multi-fields; both "
-                "layouts, 1-3 document types sharing fields; 30% 'odd': untyped leaves, empty containers, dotted "
+                "layouts, 1-3 document types sharing fields; 35% drawn from a pool of 3-4 names reused at every level (name "
+                "collisions between containers / leaves at different places); 30% 'odd': untyped leaves, empty containers, dotted "
                 "keys, containers with multi-fields, conflicting re-declarations).  One analyzer case per description "
                 "(all seven methods) + one builder case per mapped leaf and spelling; non-trivial = distinct "
                 "(description, query) pairs")
